@@ -183,3 +183,16 @@ func (b *SMT) BoxQuiet(t types.Type, v string) string {
 	b.DeclFun(un, []string{"Int"}, s)
 	return app(fn, v)
 }
+
+func init() {
+	contains := func(p *preCall) Val {
+		fc := p.fc()
+		a, x := p.args[0], p.args[1]
+		b := fc.B.Fresh("contains", "Bool")
+		fc.B.Assert(fmt.Sprintf("(= %s (exists ((j Int)) (and (<= 0 j) (< j (s_len %s)) (= (select (s_arr %s) j) %s))))", b, a.T, a.T, x.T))
+		return boolVal(b)
+	}
+	for _, n := range []string{"slices.Contains[[]string string]", "slices.Contains[[]string, string]"} {
+		reg(n, contains)
+	}
+}
